@@ -1113,6 +1113,25 @@ where
 // ----------------------------------------------------------------------------------------------------
 // ----------------------------------------------------------------------------------------------------
 
+#[cfg(rustdds_verif)]
+impl<D: Keyed, DA: DeserializerAdapter<D>> DataReader<D, DA> {
+  /// the SimpleDataReader below this DataReader (its try_take_one is public API)
+  pub fn verif_simple(&self) -> &SimpleDataReader<D, DA> {
+    &self.simple_data_reader
+  }
+}
+
+#[cfg(rustdds_verif)]
+impl<D: Keyed> crate::dds::with_key::datasample::DeserializedCacheChange<D> {
+  pub fn verif_parts(self) -> ([u8; 16], i64, Sample<D, D::K>) {
+    (
+      crate::verif::reader_rig::guid_to_bytes(self.writer_guid),
+      i64::from(self.sequence_number),
+      self.sample,
+    )
+  }
+}
+
 #[cfg(test)]
 mod tests {
   use std::rc::Rc;
